@@ -258,6 +258,42 @@ impl Scenario for Metrics {
                 }
             }
             sim::probe_n("probe.nodes_checked", checked);
+            // spill metrics: every byte that reached the (simulated) spill disk was written through some
+            // operator's SpillManager, which counts it in that operator's `spilled_bytes`
+            {
+                use std::sync::atomic::Ordering::Relaxed;
+                fn sum_spill(p: &Arc<dyn ExecutionPlan>, bytes: &mut usize, rows: &mut usize, files: &mut usize) {
+                    if let Some(m) = p.metrics().filter(|_| p.name() != "TapExec") {
+                        *bytes += m.spilled_bytes().unwrap_or(0);
+                        *rows += m.spilled_rows().unwrap_or(0);
+                        *files += m.spill_count().unwrap_or(0);
+                    }
+                    for c in p.children() {
+                        sum_spill(c, bytes, rows, files);
+                    }
+                }
+                let (mut mb, mut mr, mut mf) = (0usize, 0usize, 0usize);
+                sum_spill(&tapped, &mut mb, &mut mr, &mut mf);
+                let disk_bytes = sess.env.disk.stats.bytes_written.load(Relaxed) as usize;
+                let disk_files = sess.env.disk.stats.files_created.load(Relaxed) as usize;
+                if disk_bytes > 0 {
+                    sim::probe("probe.runs_with_spilling");
+                }
+                if std::env::var_os("VERIF_DEBUG_PLAN").is_some() {
+                    eprintln!("{}", datafusion_physical_plan::display::DisplayableExecutionPlan::with_metrics(tapped.as_ref()).indent(true));
+                }
+                // (a recursive CTE re-executes its recursive term with fresh metrics per iteration: totals
+                // over the whole statement are not defined for it)
+                if mb != disk_bytes && !sql.contains("RECURSIVE") {
+                    return violation(
+                        "spilled-bytes-mismatch",
+                        format!("`{sql}`: the plan's operators report spilled_bytes={mb} in total, the spill disk received {disk_bytes} bytes in {disk_files} files (spilled_rows={mr}, spill_count={mf})"),
+                    );
+                }
+                if (mr > 0) != (disk_bytes > 0) && mb > 0 {
+                    return violation("spilled-rows-mismatch", format!("`{sql}`: spilled_rows={mr} but {disk_bytes} bytes were spilled"));
+                }
+            }
             sim::probe_n("probe.result_rows", total_rows);
             Outcome::Pass
         })
@@ -271,8 +307,8 @@ pub fn check() -> Check {
         scenarios: vec![Box::new(Metrics)],
         cases_quick: 12_000,
         cases_thorough: 300_000,
-        rule: "runs: one generated SQL query (whole template corpus) over generated tables in 1-4 scripted partitions under a random configuration (partition counts, repartitioning switches, join preferences, a third under a bounded pool so that spilling paths run) and a seeded schedule; a counting TapExec sits above every node of the optimized plan; after the query was consumed completely, every node all of whose partition streams reached end-of-stream must report output_rows equal to the rows its tap forwarded. distinct = distinct traces",
-        assumptions: vec!["TapExec forwards its child's plan properties unchanged and is inserted after physical optimization", "nodes without an output_rows metric are skipped; spill row metrics are not checked (SimDisk sees bytes, not rows)"],
+        rule: "runs: one generated SQL query (whole template corpus) over generated tables in 1-4 scripted partitions under a random configuration (partition counts, repartitioning switches, join preferences, a third under a bounded pool so that spilling paths run) and a seeded schedule; a counting TapExec sits above every node of the optimized plan; after the query was consumed completely, every node all of whose partition streams reached end-of-stream must report output_rows equal to the rows its tap forwarded, and the operators' spilled_bytes must add up to the bytes the spill disk received. distinct = distinct traces",
+        assumptions: vec!["TapExec forwards its child's plan properties unchanged and is inserted after physical optimization", "nodes without an output_rows metric are skipped; spill metrics are checked in bytes (the sum of the operators' spilled_bytes equals the bytes the simulated spill disk received), not in rows"],
         components: json!({
             "real": ["all operators' BaselineMetrics / MetricsSet aggregation", "the whole planner and operator set as for C02"],
             "stub": ["TapExec (harness), simulated sources, memory neighbour, SimDisk"],
